@@ -98,7 +98,7 @@ def check_c02(c):
 
 def check_c11(c):
     _table_check(c, "c11", ["Properties/C11.v"], ["Proofs/CompactProofs.v", "Proofs/MergeProofs.v"],
-                 "Focus C11: few objects shared by many refs (object index present / absent / truncated position lists / multi-block), prefix-sharing object ids, min update index > 0; stacks are covered by the C03 tie (RefsFor on Merged).")
+                 "Focus C11: few objects shared by many refs (object index present / absent / truncated position lists / multi-block), prefix-sharing object ids, min update index > 0; then stacks of 1..6 real tables through NewMerged (raw and deletion-suppressing): RefsFor for every object id, refs deleted / re-pointed in newer tables.")
 
 
 def check_c14(c):
